@@ -670,3 +670,246 @@ def c16(F: Facts):
         if any(w[0] == 'stop' for w in v['detail']['waiting']) or F.final.get('cancel_all_tasks') is not None:
             out.append(v)
     return out
+
+
+# --- C17 ---------------------------------------------------------------------------
+def c17(F: Facts, w):
+    """WAL: one faithful line per processed event; failing I/O is reported and contained."""
+    import json as _json
+    from pydantic import TypeAdapter
+    from typing import Any
+    from bubus import BaseEvent
+    from .world import decode_payload
+    out = []
+    res = F.res
+    ops = res.get('io_ops', [])
+    texts = res.get('io_texts', [])
+    wal_buses = [b['name'] for b in F.sc['buses'] if b.get('wal')]
+    id2name = {f'00000000-0000-7000-8000-{int(n[1:]):012d}': n for n in F.etype}
+    io_recs = [r for r in F.recs if r[2] == 'io']
+    fired = [op for op in ops if op[3]]
+    anyadapter = TypeAdapter(Any)
+    for bus in wal_buses:
+        path = f'/wal/{bus}.jsonl'
+        # completed processings of this bus, in completion order
+        P = sorted((p[1], ev) for (b, ev), lst in F.pe.items() if b == bus for p in lst if p[1] is not None and not p[3])
+        attempts = [r for r in io_recs if r[3] == 'mkdir' and r[4] == '/wal']
+        # an attempt belongs to the bus whose processing window contains it: count per bus through opens
+        opens = [r for r in io_recs if r[3] == 'open' and r[4] == path]
+        writes = [r for r in io_recs if r[3] == 'write' and r[4] == path and r[5] != 'write_error']  # those that reached the file
+        my_texts = [t for t in texts if t[0] == path]
+        full = [t for t in my_texts if t[2] == 'full']
+        n_faults_here = sum(1 for r in io_recs if r[5] and (r[4] == path))
+        if not fired:
+            if len(full) != len(P):
+                out.append(V('C17', 'line_count', (bus,), lines=len(full), processed=len(P)))
+        # every complete line: self-contained JSON object that validates back to the same event
+        line_events = []
+        for (_, text, kind), wr in zip(my_texts, writes):
+            if kind != 'full':
+                line_events.append(None)
+                continue
+            if not text.endswith('\n') or '\n' in text[:-1]:
+                out.append(V('C17', 'not_one_line', (bus,), text=text[:60]))
+                line_events.append(None)
+                continue
+            try:
+                d = _json.loads(text)
+                ev = BaseEvent.model_validate_json(text)
+            except Exception as e:
+                out.append(V('C17', 'line_invalid', (bus,), err=type(e).__name__, text=text[:80]))
+                line_events.append(None)
+                continue
+            name = id2name.get(d.get('event_id'))
+            line_events.append(name)
+            if name is None or not isinstance(d, dict):
+                out.append(V('C17', 'line_unknown_event', (bus,), text=text[:80]))
+                continue
+            fin = F.final['events'].get(name, {})
+            if d.get('event_type') != F.etype[name] or ev.event_type != F.etype[name] or ev.event_id != d['event_id']:
+                out.append(V('C17', 'line_wrong_type_or_id', (bus, name)))
+            par = fin.get('parent')
+            want_par = f'00000000-0000-7000-8000-{int(par[1:]):012d}' if par and par.startswith('e') and par[1:].isdigit() else par
+            if d.get('event_parent_id') != want_par or ev.event_parent_id != want_par:
+                out.append(V('C17', 'line_wrong_parent', (bus, name), got=d.get('event_parent_id'), want=want_par))
+            # path at the time of the write = buses that had accepted the event by then
+            # (the line is serialised right before the attempt's mkdir, i.e. before any simulated I/O latency)
+            ser = max([r[0] for r in io_recs if r[3] == 'mkdir' and r[0] < wr[0]] or [wr[0]])
+            pth = []
+            for seq, t, actor, b2, e2, oc, hl in F.disps:
+                if e2 == name and oc == 'ok' and seq < ser and b2 not in pth:
+                    pth.append(b2)
+            if d.get('event_path') != pth or list(ev.event_path) != pth:
+                out.append(V('C17', 'line_wrong_path', (bus, name), got=d.get('event_path'), want=pth))
+            if 'event_results' in d:
+                out.append(V('C17', 'line_contains_results', (bus, name)))
+            pl = w.payloads.get(name)
+            if pl is not None:
+                want = _json.loads(anyadapter.dump_json(decode_payload(pl[0])))
+                if d.get('payload') != want:
+                    out.append(V('C17', 'line_wrong_payload', (bus, name), got=str(d.get('payload'))[:60], want=str(want)[:60]))
+                for k, v in pl[1].items():
+                    wantv = _json.loads(anyadapter.dump_json(decode_payload(v)))
+                    if d.get(k) != wantv:
+                        out.append(V('C17', 'line_wrong_extra_field', (bus, name, k)))
+        # order and placement: the i-th line is for the i-th completed processing, written after that
+        # processing's handlers finished and before the processing ended
+        good = [(n, wr) for n, wr in zip(line_events, writes) if n is not None]
+        if not fired:
+            if [n for n, _ in good] != [ev for _, ev in P]:
+                out.append(V('C17', 'line_order', (bus,), lines=[n for n, _ in good][:8], processed=[ev for _, ev in P][:8]))
+        for n, wr in good:
+            win = [p for p in F.pe.get((bus, n), ()) if p[0] < wr[0] and (p[1] is None or p[1] > wr[0])]
+            if not win:
+                out.append(V('C17', 'write_outside_processing', (bus, n), seq=wr[0]))
+                continue
+            for a in F.acts.values():
+                if a.bus == bus and a.ev == n and a.enter_seq > win[0][0] and (a.exit_seq is None or a.exit_seq > wr[0]) and a.enter_seq < (win[0][1] or 1 << 60):
+                    out.append(V('C17', 'written_before_handlers_finished', (bus, n), act=a.id))
+                    break
+    # faults: each is reported once, and never affects processing
+    nerr = sum(1 for m in res.get('errlog', []) if 'Failed to save event' in m)
+    # one report per failed WAL attempt (an attempt = mkdir, open, write, close; a failing write and the close
+    # that follows it belong to the same attempt)
+    failed_attempts = 0
+    cur_failed = False
+    for op in ops:
+        if op[1] == 'mkdir':
+            failed_attempts += 1 if cur_failed else 0
+            cur_failed = False
+        if op[3]:
+            cur_failed = True
+    failed_attempts += 1 if cur_failed else 0
+    if failed_attempts != nerr:
+        out.append(V('C17', 'fault_not_reported', (failed_attempts, nerr), fired=[(o[1], o[3]) for o in fired][:5]))
+    if fired or True:
+        for v in c01(F):
+            if v['clause'] in ('C01.missing', 'C01.duplicate', 'C01.hang'):
+                out.append(v)
+        if F.settled:
+            for n, e in F.final.get('events', {}).items():
+                if n in F.accepted_events and not (e['sig'] and e['status'] == 'completed'):
+                    out.append(V('C17', 'event_incomplete', (n,), status=e['status']))
+    return out
+
+
+# --- C18 ---------------------------------------------------------------------------
+def _filter_eval(spec, v):
+    """None if the filter raises for v."""
+    if spec is None:
+        return True
+    k = spec[0]
+    if k == 'mod':
+        return v % spec[1] == spec[2]
+    if k == 'ge':
+        return v >= spec[1]
+    if k == 'eq':
+        return v == spec[1]
+    if k == 'true':
+        return True
+    if k == 'false':
+        return False
+    if k == 'raise':
+        return None if v >= spec[1] else False
+    raise AssertionError(spec)
+
+
+def c18(F: Facts, w):
+    import json as _json
+    out = []
+    vals = {n: ev_v for n, ev_v in getattr(w, 'values', {}).items()}
+    begins = {}
+    for r in F.expects:
+        if r[2] == 'expect_begin':
+            begins[r[5]] = r
+    ended = set()
+    stall_slack = sum(x[1] for x in F.sc.get('faults', {}).get('stalls', []))
+    for r in F.expects:
+        if r[2] != 'expect_end':
+            continue
+        seq_e, te, _, actor, bus, xid, outcome, got, n0, n1 = r
+        b = begins[xid]
+        ended.add(xid)
+        seq_b, tb, typ, filt, timeout = b[0], b[1], b[6], _json.loads(b[7]), b[8]
+
+        def matches(ev):
+            if F.etype.get(ev) != typ or ev not in vals:
+                return False
+            v = vals[ev]
+            inc, pred, exc = _filter_eval(filt.get('inc'), v), _filter_eval(filt.get('pred'), v), None
+            if inc is None or inc is False:
+                return False  # include raised / rejected (and short-circuits the deprecated predicate)
+            if pred is None or pred is False:
+                return False
+            if filt.get('exc') is not None:
+                exc = _filter_eval(filt['exc'], v)
+                if exc is None or exc is True:
+                    return False
+            return True
+
+        # matching events whose processing on this bus began while the call was pending
+        cands = []
+        for (bb, ev), lst in F.pe.items():
+            if bb != bus or not matches(ev):
+                continue
+            for p in lst:
+                if p[0] > seq_b and p[0] < seq_e:
+                    cands.append((p[0], p[1], ev))
+        cands.sort()
+        if outcome == 'ret':
+            if got is None or got == '?':
+                out.append(V('C18', 'returned_unknown', (xid,)))
+                continue
+            if not matches(got):
+                out.append(V('C18', 'returned_non_matching', (xid, got), type=F.etype.get(got), v=vals.get(got), filt=filt))
+                continue
+            mine = [c for c in cands if c[2] == got]
+            if not mine:
+                out.append(V('C18', 'returned_event_not_processed_in_window', (xid, got)))
+                continue
+            first_begin = mine[0][0]
+            earlier = [c for c in cands if c[2] != got and c[1] is not None and c[1] < first_begin]
+            if earlier:
+                out.append(V('C18', 'not_first_match', (xid, got, earlier[0][2])))
+            if timeout is not None and te - tb > timeout + stall_slack + EPS:
+                out.append(V('C18', 'returned_after_deadline', (xid,), took=te - tb, timeout=timeout))
+        elif outcome == 'exc:TimeoutError':
+            if timeout is None:
+                out.append(V('C18', 'timeout_without_timeout', (xid,)))
+                continue
+            if abs((te - tb) - timeout) > stall_slack + EPS:
+                out.append(V('C18', 'timeout_at_wrong_time', (xid,), took=te - tb, timeout=timeout))
+            done = [c for c in cands if c[1] is not None and c[1] < seq_e and F.recs[0][0] <= c[1]]
+            # a match fully processed strictly before the deadline instant must have resolved the call
+            early = [c for c in done if _t_of(F, c[1]) < tb + timeout - EPS]
+            if early:
+                out.append(V('C18', 'timeout_despite_match', (xid, early[0][2])))
+        elif outcome == 'cancelled':
+            pass
+        else:
+            out.append(V('C18', 'unexpected_outcome', (xid, outcome)))
+    # registry restored: once every expect call has ended the bus has exactly its original handlers
+    open_calls = [x for x in begins if x not in ended]
+    if not open_calls and F.end in ('ok',):
+        for bn, b in F.final.get('buses', {}).items():
+            want = sum(1 for h in F.handlers if h['bus'] == bn)
+            if b['nhandlers'] != want:
+                out.append(V('C18', 'subscription_leaked', (bn,), handlers=b['nhandlers'], expected=want))
+    for v in c01(F):
+        if v['clause'] in ('C01.missing', 'C01.duplicate'):
+            out.append(v)
+    hv = hang_violations(F, 'C18')
+    out += hv
+    return out
+
+
+def _t_of(F, seq):
+    # time of record number seq (records are dense and ordered)
+    lo, hi = 0, len(F.recs) - 1
+    while lo < hi:
+        mid = (lo + hi) // 2
+        if F.recs[mid][0] < seq:
+            lo = mid + 1
+        else:
+            hi = mid
+    return F.recs[lo][1]
